@@ -35,6 +35,10 @@ pub enum Bad {
 	TxBadInput(u16),
 	/// a valid block on an ancestor of the head that does not win (A only)
 	LosingFork(u8, RawBlock),
+	/// the header of a valid next block over the body of ANOTHER valid next block (A only; same block hash, since a
+	/// block's hash is its header's) — and then the genuine block to both twins: a refused block may leave nothing
+	/// behind that is keyed by its hash
+	GraftedBody(RawBlock),
 }
 
 #[derive(Clone, Debug, Serialize, Deserialize)]
@@ -77,6 +81,7 @@ fn bad() -> impl Strategy<Value = Bad> {
 		1 => any::<u16>().prop_map(Bad::TxNrdDuplicate),
 		1 => any::<u16>().prop_map(Bad::TxBadInput),
 		4 => (1u8..5, raw_block(0)).prop_map(|(d, b)| Bad::LosingFork(d, b)),
+		3 => raw_block(0).prop_map(Bad::GraftedBody),
 	]
 }
 
@@ -471,6 +476,53 @@ pub fn run_case(ctx: &Ctx, case: &Case, counting: bool) -> PResult {
 							ev.class("bad_stage:LosingFork");
 						}
 						seen_bad = true;
+					}
+					Bad::GraftedBody(raw) => {
+						let mut r = raw.clone();
+						r.neg = Neg::None;
+						r.parent = 0;
+						r.hdr = 0;
+						let built = w.build(a.c(), &r, head).map_err(|e| Fail::new("builder", format!("op {}: {}", i, e)))?;
+						let Ok(model) = built.verdict.clone() else { continue };
+						let mut r2 = r.clone();
+						r2.txs.clear();
+						r2.cb_key = r.cb_key.wrapping_add(1) % 3;
+						r2.dt = r.dt.wrapping_add(1).max(1);
+						let other = w.build(a.c(), &r2, head).map_err(|e| Fail::new("builder", format!("op {}: {}", i, e)))?;
+						if other.verdict.is_err() || other.block.hash() == built.block.hash() {
+							continue;
+						}
+						let grafted = grin_core::core::Block { header: built.block.header.clone(), body: other.block.body.clone() };
+						let res = a.c().process_block(grafted, o);
+						ensure!(res.is_err(), "bad-input-accepted:GraftedBody", "op {}: a block carrying another block's body under its header was accepted (h={})", i, built.block.header.height);
+						stages.insert("GraftedBody".into());
+						if counting {
+							ev.class(&format!("bad_stage:GraftedBody:{}", res.as_ref().err().map(|e| err_name(e)).unwrap_or_default().split(|c| c == '(' || c == ' ' || c == '{').next().unwrap_or("")));
+						}
+						seen_bad = true;
+						compare(&a, &b, &w, &format!("after the grafted block of op {}", i))?;
+						// the genuine block with that very hash, to both
+						let ra = a.c().process_block(built.block.clone(), o);
+						let rb = b.c().process_block(built.block.clone(), o);
+						ensure!(
+							res_kind(&ra) == res_kind(&rb) && ra.as_ref().ok().map(|t| t.is_some()) == rb.as_ref().ok().map(|t| t.is_some()),
+							"twin-result-differs",
+							"op {}: the genuine block h={} is processed differently after a block with its header and another body was refused: A {:?} B {:?}",
+							i,
+							built.block.header.height,
+							ra.as_ref().map(|t| t.is_some()).map_err(|e| err_name(e)),
+							rb.as_ref().map(|t| t.is_some()).map_err(|e| err_name(e))
+						);
+						match ra {
+							Ok(tip) => {
+								let n = w.push(&built, model);
+								if tip.is_some() {
+									good_after_bad += 1;
+									head = n;
+								}
+							}
+							Err(e) => fail!("valid-block-rejected", "op {}: good block rejected by both twins: {}", i, err_name(&e)),
+						}
 					}
 				}
 			}
